@@ -19,7 +19,7 @@ EXPLANATION = (
     "`sa` is checked for that convention: All, then only stack-neutral components, evaluation, best-update, the "
     "cooling schedule and then the acceptance, each once per pass. K6 on GeometricCooling::execute (with the mapping "
     "driver inlined): the temperature is read once through its lens, multiplied by alpha and assigned once through "
-    "the SAME lens; init of the acceptance inserts Temperature(t_0). NOT decided: acceptance frequencies over many draws.")
+    "the SAME lens; init of the acceptance inserts Temperature(t_0). (INIT) init() evaluated with every field of self a distinct symbol inserts exactly the state types of a reviewed table, under the component's own instantiation, each built from exactly the documented field or empty / zero. NOT decided: acceptance frequencies over many draws.")
 ASSUMPTIONS = ["Rng::gen::<f64>() returns a value in [0, 1)"]
 
 ACC = "mahf::components::replacement::sa::ExponentialAnnealingAcceptance"
@@ -87,14 +87,6 @@ def r1_acceptance(ctx):
               "%s (documented: `Err` if the two top-most populations do not contain exactly one individual): the acceptance %s" % (bad_doc[0] if bad_doc else ("", "")), loc=fn.loc())
     ctx.check(not bad, "C17.R1", fn.key, "metropolis-rule", "candidate %s vs current %s, T=%s, draw=%s: acceptance %s" % (bad[0] if bad else ("", "", "", "", "")), detail="%d scenarios" % n, loc=fn.loc())
     ctx.count("acceptance_scenarios", n)
-    ini = F.method(ACC, "init", "mahf::components::Component")
-    ins = [(b, t) for b, t in ini.body.calls() if t["f"].get("key") == "mahf::state::registry::StateRegistry::insert" and t["f"].get("gargs") == [TEMP]]
-    good = len(ins) == 1
-    if good:
-        from kinds import origin
-        v = strip(ini.body.expr_of_op(ins[0][1]["args"][1]))
-        good = v[0] == "agg" and v[2] == TEMP and origin(v[4][0])[0] == ("arg", 1) and origin(v[4][0])[2] == [F.field_index(ACC, "t_0")]
-    ctx.check(good, "C17.R1", ini.key, "initial-temperature", "init does not insert Temperature(self.t_0)", loc=ini.loc())
 
 
 def r2_template(ctx):
@@ -173,6 +165,7 @@ def r3_cooling(ctx):
 
 
 def run(ctx):
+    ctx.guard("C17.INIT", "init installs the configured state", lambda: __import__("initspec").check_for(ctx, "C17"))
     ctx.guard("C17.K17", "constructor fidelity", lambda: __import__("ctor").check_for(ctx, "C17", 3))
     ctx.guard("C17.R1", "acceptance", lambda: r1_acceptance(ctx))
     ctx.guard("C17.R2", "template", lambda: r2_template(ctx))
